@@ -7,6 +7,7 @@ CONSTANTS MaxLen, Alphabet
 AQuote == {"a", " ", "'", "\"", "`", "\\", "$", "(", ")", "{", "}", "|", "&", ";"}
 ARedir == {"a", "1", " ", ">", "<", "&", "|", ";", "#", "*", "{", ",", "}", "."}
 AArith == {"1", "9", ".", "+", "-", "*", "/", "^", "(", ")", " ", "e", "~", "="}
+AMulti == {"a", "U", "W", " ", "'", "\"", "\\", "$", "(", ")", "|", "&", ";", "#"}      \* U, W = two multi-byte characters
 AAll   == AQuote \cup ARedir \cup AArith \cup {"U", "W", "T", "!", "?", "[", "]", "%"}
 VARIABLES txt, done
 vars == <<txt, done>>
